@@ -65,11 +65,6 @@ const allotReason = "makeAllotment returns one share per allotment item: the sha
 var runExceptions = map[string]rules.PanicException{
 	"panic:internal/interpreter.expectOneOf$1:explicit": {
 		Reason: "every call of expectOneOf passes at least one combinator", Side: rules.SideVariadicNonEmpty(relInterp, "expectOneOf")},
-	"panic:internal/interpreter.parseArg:index": {
-		Reason: "the index is the argument counter (only ever incremented from zero) and is compared with len(p.args) before use", Side: rules.SideCounterField(relInterp, "argsParser", "parsedArgsCount")},
-	"panic:internal/interpreter.programState.trySendingUpTo:index": {Reason: allotReason, Side: rules.SideOneAppendPerArm(relInterp, "(*programState).makeAllotment")},
-	"panic:internal/interpreter.programState.receiveFrom:index":    {Reason: allotReason, Side: rules.SideOneAppendPerArm(relInterp, "(*programState).makeAllotment")},
-	"panic:internal/interpreter.programState.makeAllotment:index":  {Reason: "the remaining index is the loop index of an item already appended: " + allotReason, Side: rules.SideOneAppendPerArm(relInterp, "(*programState).makeAllotment")},
 }
 
 func obPanicRun(c *rules.Ctx, id string) {
